@@ -734,6 +734,33 @@ pub fn handle_leaf(toks: &[&str]) -> Option<String> {
             let mode = parse_mode(toks.get(1)?)?;
             match os_of(mode, &of_hex(toks.get(2)?)?) { Some(os) => format!("ok {}", os_views(&os)), None => "err content".into() }
         }
+        "oss.calls" => {
+            use bcder::decode::{Source, IntoSource};
+            let mode = parse_mode(toks.get(1)?)?;
+            match os_of(mode, &of_hex(toks.get(2)?)?) {
+                None => "err content".into(),
+                Some(os) => {
+                    let mut src = os.into_source();
+                    let mut granted = src.slice().len();
+                    let mut out: Vec<String> = Vec::new();
+                    for t in &toks[3..] {
+                        let n: usize = t[1..].parse().ok()?;
+                        if t.starts_with('r') {
+                            match src.request(n) {
+                                Ok(g) => { granted = g; out.push(format!("g{}:{}", g, to_hex(src.slice()))); }
+                                Err(_) => { out.push("refused".into()); break }
+                            }
+                        } else if t.starts_with('a') {
+                            let k = std::cmp::min(n, granted);
+                            src.advance(k);
+                            granted -= k;
+                            out.push(format!("a:{}", to_hex(src.slice())));
+                        } else { return None }
+                    }
+                    format!("ok {}", out.join(" "))
+                }
+            }
+        }
         "os.cmp" => {
             let mode = parse_mode(toks.get(1)?)?;
             match (os_of(mode, &of_hex(toks.get(2)?)?), os_of(mode, &of_hex(toks.get(3)?)?)) {
